@@ -502,12 +502,12 @@ func runC06(c *Ctx) {
 				break
 			}
 			w, resw := parseZone("$ORIGIN example.org.\n$TTL 300\n"+line+"\n", "", -1, nil)
-			// $GENERATE lines get the package default TTL (3600) unless they state one
+			// the expanded line written in place: same owner, same TTL in force ($TTL 300), same RDATA
 			if resw != "ok" || len(w) != 1 {
 				okExp = false
 				break
 			}
-			want = append(want, strings.Replace(w[0], "\t300\t", "\t3600\t", 1))
+			want = append(want, w[0])
 		}
 		if okExp {
 			c.Pred("generate", "generate-expands", zone, res == "ok" && strings.Join(recs, "\n") == strings.Join(want, "\n"), res+" "+strings.Join(recs, " | "), strings.Join(want, " | "), true)
@@ -558,6 +558,26 @@ func runC06(c *Ctx) {
 		want := []string{`"sub/a"`, `"sub/b"`, `"sub/c"`, `"sub/deeper/d"`, `"sub/deeper/e"`, `"main"`}
 		c.Pred("include", "include-tree-relative-paths", main, res == "ok" && strings.Join(got, " ") == strings.Join(want, " "),
 			res+" "+strings.Join(got, " "), strings.Join(want, " "), true)
+	}
+	// the lines a $GENERATE expands to take an omitted TTL like any other line: the $TTL value, else the most recently
+	// stated TTL, else the configured default
+	for _, tc := range []struct {
+		zone string
+		def  int
+		want string
+	}{{"$TTL 300\n$GENERATE 1-2 h$ A 10.0.0.$\n", -1, "300 300"}, {"$TTL 300\n$GENERATE 1-2 h$ A 10.0.0.$\n", 900, "300 300"},
+		{"x 77 A 192.0.2.1\n$GENERATE 1-2 h$ A 10.0.0.$\n", -1, "77 77 77"}, {"$GENERATE 1-2 h$ A 10.0.0.$\n", 900, "900 900"},
+		{"$TTL 300\n$GENERATE 1-2 h$ 55 A 10.0.0.$\ny A 192.0.2.2\n", -1, "55 55 300"}, {"$TTL 1h\nx 77 A 192.0.2.1\n$GENERATE 1-1 h$ A 10.0.0.$\n", 900, "77 3600"}} {
+		recs, res := parseZone("$ORIGIN example.org.\n"+tc.zone, "", tc.def, nil)
+		var ttls []string
+		for _, s := range recs {
+			f := strings.Split(s, "\t")
+			if len(f) > 1 {
+				ttls = append(ttls, f[1])
+			}
+		}
+		c.Pred("generate", "generated-lines-take-the-ttl-in-force", fmt.Sprintf("default=%d zone=%s", tc.def, hxs(tc.zone)), res == "ok" && strings.Join(ttls, " ") == tc.want,
+			res+" "+strings.Join(ttls, " "), tc.want, true)
 	}
 	// an $INCLUDE line that a $GENERATE expands to names its file in the configured file system like any other: the same
 	// path exists on disk with other content, which must not be what is read
